@@ -376,7 +376,14 @@ class LighthouseMemHelper:
             self._result = {}
             self._next_id = 0
             self._read_done_cb = read_done_cb
-            self._get_object(0)
+            try:
+                self._get_object(0)
+            except Exception:
+                # Nothing was started (the memory is busy), do not stay in progress
+                self._read_done_cb = None
+                self._result = None
+                self._next_id = None
+                raise
 
         def _data_updated(self, mem, data):
             self._result[self._next_id] = data
@@ -419,7 +426,13 @@ class LighthouseMemHelper:
             # Make a copy of the dictionary
             self._objects_to_write = dict(object_dict)
             self._write_failed_for_one_or_more_objects = False
-            self._write_next_object()
+            try:
+                self._write_next_object()
+            except Exception:
+                # Nothing was started (the memory is busy), do not stay in progress
+                self._objects_to_write = None
+                self._write_done_cb = None
+                raise
 
         def _write_next_object(self):
             if len(self._objects_to_write) > 0:
